@@ -44,7 +44,8 @@ THEOREMS = {
             "event_tau_rejected", "event_schedule_rejected", "event_negative_impact_rejected", "event_empty_impact_rejected", "event_excess_loss_rejected", "event_shares_rejected", "event_accepted", "params_ok", "init_econ_ok", "tracker_init_ok", "inv_step", "step_quantities_nonneg", "no_silent_failure", "inv_reach"],
     "C02": ["specDemand_eq", "step_refines_spec", "nextStep_econ", "Records.phase_order"],
     "C19": ["lifecycle_shift", "recoverOne_shift", "eventsPost_shift", "eventsPre_shift", "shift_step", "overprod_identity_at_rest",
-            "shift_step_early", "shift_run_partial", "equilibrium_step_exact", "shift_invariance", "Gen.monotony_never_incremented"],
+            "shift_step_early", "shift_run_partial", "equilibrium_step_exact", "shift_invariance", "Gen.monotony_never_incremented",
+            "equilibrium_step_exact_dt", "shift_invariance_dt", "shift_invariance_of_dt"],
     "C12": ["Impact.distribute_sum", "Impact.distribute_pos", "Impact.distribute_equal", "Impact.distribute_proportional", "Impact.distribute_support",
             "Impact.reject_nonpositive_impact", "Impact.reject_empty_selection", "Impact.reject_missing_weight", "Impact.reject_negative_entry",
             "Impact.reject_negative_weight", "Impact.regions_sectors_sum", "Impact.regions_sectors_product"],
@@ -61,7 +62,7 @@ THEOREMS = {
 
 # Lean modules holding them
 MODULES = {pid: [f"Boario.Properties.{pid}"] for pid in THEOREMS}
-MODULES["C19"] = ["Boario.Properties.C19", "Boario.Properties.C19Run", "Boario.Properties.LoopThm"]
+MODULES["C19"] = ["Boario.Properties.C19", "Boario.Properties.C19Run", "Boario.Properties.C19Dt", "Boario.Properties.LoopThm"]
 MODULES["C16"] = ["Boario.Properties.C16", "Boario.Properties.LoopThm"]
 MODULES["C02"] = ["Boario.Properties.C02", "Boario.Properties.PhaseOrder"]
 MODULES["C14"] = ["Boario.Properties.C14", "Boario.Properties.PhaseOrder", "Boario.Properties.Reach"]
